@@ -127,6 +127,17 @@ func checkStream(q *x, s stream, val codec, want []byte) {
 		seen("encoding-equals-reference")
 		c.Cell("%s|encode|equals reference layout", s.name)
 	}
+	// 1b. the same value with dirty spare capacity behind every byte-slice field
+	{
+		var recs []dirtyRec
+		if dv := dirtyClone(val, &recs); dv != nil && len(recs) > 0 {
+			var e2 bytes.Buffer
+			var err2 error
+			if q.must(s.eMa(), func() { err2 = dv.Marshal(&e2) }) {
+				q.judgeSpare(s.eMa(), s.name, enc.Bytes(), e2.Bytes(), err2, recs)
+			}
+		}
+	}
 	// 2. decode inverts encode, with exactly the encoding consumed, through the three reader kinds,
 	//    with and without bytes following the encoding
 	readers := 0
@@ -728,6 +739,15 @@ func caseEvt3(q *x) {
 	} else {
 		seen("encoding-equals-reference")
 		c.Cell("SP800155Event3|encode|equals reference layout")
+	}
+	{
+		var recs []dirtyRec
+		dv := dirtyEventData(eventlog.TCGEventData{Event: rv}, &recs).Event.(*eventlog.SP800155Event3)
+		var e2 []byte
+		var err2 error
+		if q.must(eMa, func() { e2, err2 = dv.MarshalToBytes() }) {
+			q.judgeSpare(eMa, "SP800155Event3", enc, e2, err2, recs)
+		}
 	}
 	// accepted judges an accepted body: fields and re-encoding equal up to trailing zeros
 	accepted := func(probe string, in []byte, d *eventlog.SP800155Event3) {
